@@ -11,8 +11,11 @@ symbolic address `a<i>`; `dead` is an address nobody listens on):
                                               UpdateRemoteStatus / UpdateRemoteEndpoint / RemoveRemoteEndpoint / RemoveNode -> ok <0|1>
   lep <i> <ep> | rmlep <i> <ep>               node i's cluster.State.AddLocalEndpoint / RemoveLocalEndpoint called directly
                                               (the local row no longer matches the registry)          -> ok
-  resync                                      every node: RemoveConn all upstreams, AddConn them again in
-                                              registration order (resets the round-robin cursors)  -> ok
+  gone <i> <uid> <ep>                         from now on that fake upstream's Dial() answers upstream.ErrGone (it stays
+                                              registered until the proxy dials it and removes it)   -> ok
+  resync                                      every node: RemoveConn all upstreams, AddConn those that are not gone
+                                              again in registration order (resets the round-robin cursors and makes
+                                              the registries independent of which candidate a request chose) -> ok
   req <i> <http|tcp> <host> <x-piko-endpoint|~> <x-piko-forward|~> <connraw,..|-> <conn,..|-> <pathEp|-> <split|!> <ip>
         client request entering at node i.  <connraw> are the raw `Connection` header lines sent
         (implementation side only); <conn> are the canonical names of the options they list
@@ -71,22 +74,26 @@ def withView (s : St) (i : Nat) (f : Cluster.State → Cluster.State × Bool) : 
 
 def showEps (m : Mgr) : String := showCounts (m.endpoints.map fun p => (p.1, toString p.2))
 
+def isGoneUp (s : St) (p : Nat × Nat × String) : Bool := s.w.isGone (nid p.1) p.2.2 p.2.1
+
 def resync (s : St) : St :=
+  let keep := s.ups.filter (fun p => !isGoneUp s p)
   let rm := s.ups.foldl (fun (w : World) (p : Nat × Nat × String) =>
     match w.nodes.find (nid p.1) with
     | none => w
     | some m => { w with nodes := w.nodes.insert (nid p.1) (m.removeConn { id := p.2.1, ep := p.2.2 }) }) s.w
-  let ad := s.ups.foldl (fun (w : World) (p : Nat × Nat × String) =>
+  let ad := keep.foldl (fun (w : World) (p : Nat × Nat × String) =>
     match w.nodes.find (nid p.1) with
     | none => w
     | some m => { w with nodes := w.nodes.insert (nid p.1) (m.addConn { id := p.2.1, ep := p.2.2 }) }) rm
-  { s with w := ad }
+  { s with w := ad, ups := keep }
 
 def showOutcome (n : Nat) (r : Result) : String :=
   let st := match r.outcome with
     | .badRequest _ => "s=400;r=noep"
     | .served _ _ _ => "s=ok;r=-"
     | .noUpstream _ => "s=502;r=none"
+    | .gone _ _ _ => "s=502;r=unreach"
     | .unreachable => "s=502;r=unreach"
     | .fault _ => "s=500;r=fault"
     | .outOfFuel => "s=loop;r=-"
@@ -156,6 +163,10 @@ def step (s : St) : List String → St × String
     match i.toNat? with
     | some i => withNode s i fun m => ({ m with cluster := (m.cluster.removeLocalEndpoint (hx e)).1 }, "ok")
     | none => (s, "bad-op")
+  | ["gone", i, u, e] =>
+    match i.toNat?, u.toNat? with
+    | some i, some uid => ({ s with w := { s.w with gone := (nid i, hx e, uid) :: s.w.gone } }, "ok")
+    | _, _ => (s, "bad-op")
   | ["resync"] => (resync s, "ok")
   | ["req", i, kind, host, eph, fwd, _connraw, conn, pathEp, split, ip] =>
     match i.toNat? with
@@ -169,10 +180,16 @@ def step (s : St) : List String → St × String
       let w' := match alts with
         | a :: _ => a.2
         | [] => s.w
+      -- an upstream that answered ErrGone was removed by the proxy: it is no longer registered
+      let ups' := match alts with
+        | a :: _ => match a.1.outcome with
+          | .gone k e u => s.ups.filter (fun p => !(nid p.1 == k && p.2.1 == u && p.2.2 == e))
+          | _ => s.ups
+        | [] => s.ups
       let out := match outs with
         | [o] => "res " ++ o
         | os => "res {" ++ joinWith "|" os ++ "}"
-      ({ s with w := w' }, out)
+      ({ s with w := w', ups := ups' }, out)
     | none => (s, "bad-op")
   | ["epid", host, eph, split, ip] =>
     (s, "epid " ++ hexEnc (endpointIDFromRequest (mkLib split ip) (hx host) (optTok eph)))
